@@ -14,6 +14,8 @@ type Convergen interface {
 	CopyB(*SrcB) *DstB
 	// :style arg
 	IntoB(SrcB) DstB
+	// :getter
+	FromGetters(*SrcG) *DstG
 	// CopyN: fields of defined slice types.
 	CopyN(*SrcN) *DstN
 }
